@@ -59,6 +59,27 @@ def c02_struct(tier="quick", seed=0):
     out.append(ob("C02.struct.native-depth-guard", not unguarded and guards and not public_chain, "K3",
                   f"nested run loop chain {sorted(chain)}, guard points {sorted(guards)}; unguarded entries: {unguarded}; chain members reachable as entry points: {public_chain}",
                   witness="function f(){ return [1].map(f) } f()"))
+    # every function of the context that obtains a nested VM and lets it call back into script code makes that VM the
+    # current one while it runs (otherwise code started from inside it sees the outer VM's depth again and the
+    # guard never fires).  The Function constructor only evaluates a function expression in its VM.
+    ctx_tree = S.module("microjs.context")
+    users, not_current = [], []
+    for f in ast.walk(ctx_tree):
+        if isinstance(f, ast.FunctionDef) and f.name != "_nested_vm":
+            inner = [g for g in ast.walk(f) if isinstance(g, ast.FunctionDef) and g is not f]
+            own = [n for n in ast.walk(f) if not any(n in list(ast.walk(g)) for g in inner)]
+            if any(isinstance(n, ast.Call) and isinstance(n.func, ast.Attribute) and n.func.attr == "_nested_vm" for n in own):
+                users.append(f.name)
+                sets = any(isinstance(n, ast.Assign) and isinstance(n.targets[0], ast.Attribute) and n.targets[0].attr == "_current_vm"
+                           and isinstance(n.value, ast.Name) and n.value.id == "vm" for n in own)
+                only_runs_expression = f.name == "function_constructor_fn" or all(
+                    not (isinstance(n, ast.Call) and isinstance(n.func, ast.Attribute) and isinstance(n.func.value, ast.Name) and n.func.value.id == "vm"
+                         and n.func.attr != "run") for n in own) and "anonymous" in ast.unparse(f)
+                if not sets and not only_runs_expression:
+                    not_current.append(f.name)
+    out.append(ob("C02.struct.nested-vm-made-current", len(users) >= 3 and not not_current, "K3",
+                  f"functions obtaining a nested VM: {users}; not making it current while script code may run in it: {not_current}",
+                  witness="var o={get x(){ return Object.values(o) }}; o.x"))
     try:
         en = S.fn("microjs.vm", "VM._enter_native")
         src = ast.unparse(en)
@@ -93,6 +114,28 @@ RECURSION = {
     "bind": "function f(){ return f.bind(null)() } f()", "eval": "function f(){ return eval('f()') } f()",
     "Function": "function f(){ return new Function('return f()')() } f()",
     "replace-fn": "function f(){ return 'a'.replace('a', 'b') + [1].map(f) } f()",
+    # script code re-entered through built-ins that read or write properties of script objects, through further
+    # callback-taking built-ins, and through the remaining ways of starting a function
+    "getter-values": "var o={get x(){ return Object.values(o) }}; o.x",
+    "getter-entries": "var o={get x(){ return Object.entries(o) }}; o.x",
+    "getter-assign": "var o={get x(){ return Object.assign({}, o) }}; o.x",
+    "getter-keys-map": "var o={get x(){ return Object.keys(o).map(function(k){ return o[k] }) }}; o.x",
+    "getter-forin": "var o={get x(){ var s=''; for (var k in o) s += o[k]; return s }}; o.x",
+    "setter-assign": "var o={set x(v){ Object.assign(o, {x: 1}) }}; o.x = 1",
+    "setter-defineProperty": "var o={}; Object.defineProperty(o, 'x', {set: function(v){ o.x = v }}); o.x = 1",
+    "getter-defineProperty": "var o={}; Object.defineProperty(o, 'x', {get: function(){ return o.x }}); o.x",
+    "replace-string-fn": "function f(){ return 'a'.replace('a', f) } f()",
+    "replace-regex-fn": "function f(){ return 'a'.replace(/a/, f) } f()",
+    "replaceAll-fn": "function f(){ return 'a'.replaceAll('a', f) } f()",
+    "reduceRight": "function f(){ return [1,2].reduceRight(f) } f()",
+    "findIndex": "function f(){ return [1].findIndex(f) } f()",
+    "bound-method": "var o={m:function(){ return o.m.bind(o)() }}; o.m()",
+    "ctor-getter": "function F(){ return new F().x } F.prototype={get x(){ return new F() }}; new F()",
+    "named-fn-expr": "var f = function g(){ return [1].map(g) }; f()",
+    "arrow": "var f = () => [1].map(f); f()",
+    "eval-indirect": "var e = eval; function f(){ return e('f()') } f()",
+    "in-catch": "function f(){ try { throw 1 } catch(e) { return f() } } f()",
+    "in-finally": "function f(){ try { } finally { return f() } } f()",
 }
 
 
